@@ -157,6 +157,14 @@ end
 
 def natStr (n : Nat) : Str := (toString n).toList
 
+/-- can the value be a dict key (`slot_name in fills`)?  lists and dicts are not; a namedtuple is
+iff all its fields are -/
+def hashable : Val → Bool
+  | .list _ => false
+  | .dict _ => false
+  | .injected kvs => kvs.all (fun kv => match kv.2 with | .list _ => false | .dict _ => false | _ => true)
+  | _ => true
+
 /-- what `{{ v }}` prints -/
 def pyStr : Val → Str
   | .str s => s
